@@ -276,7 +276,7 @@ pub fn run(ctx: &Ctx) -> Report {
          oracle = output == serialize(reference_edit(tree, filters)) with the reference working on the tree (insert before end tag / after start tag / substitute node), filter by filter; \
          non-trivial = the document changed and contains >=1 decoy (comment or raw-text element mentioning path tags, void or self-closing element); distinct by case hash",
     );
-    rep.assume("selectors are class selectors whose hits sit on elements whose tree construction is context-free in html5ever fragment mode (scraper/html5ever are trusted for selector evaluation); text nodes never contain a '<' that could open a tag; non-void elements carry explicit end tags");
+    rep.assume("selectors are class selectors whose hits sit on elements whose tree construction is context-free in html5ever fragment mode (scraper/html5ever are trusted for selector evaluation); text nodes never contain a '<' that could open a tag; the elements of the filter paths carry explicit end tags, fill elements may be written without theirs (p, li, dt, dd: a start tag and nothing else as far as the filters are concerned)");
     rep.add(run_part(ctx, "documents", ctx.cases(800_000, 30_000_000), strategy, check, &[]));
     rep
 }
